@@ -164,8 +164,12 @@ pub fn c18(g: &mut G) {
     dfas.extend(small_dfas(2, None));
     let mut r = Rng::new(g.rng.next());
     dfas.extend(small_dfas(3, Some((&mut r, if g.thorough { 2000 } else { 100 }))));
-    for t in &dfas {
+    for (i, t) in dfas.iter().enumerate() {
         leaves.push(AutSpec::Dfa(t.clone()));
+        if i % 4 == 0 {
+            // the same table without hint methods: the trait's defaults must be sound too
+            leaves.push(AutSpec::DfaD(t.clone()));
+        }
     }
     for _ in 0..10 {
         let mut r3 = Rng::new(g.rng.next());
